@@ -552,7 +552,32 @@ func RunAttach(sc AttachScenario) []AttachLine {
 		got := r.step(st)
 		lines = append(lines, AttachLine{Ev: "step", Max: sc.Max, Hs: []AttachHandler{}, I: i + 1, H: st.H, G: st.G, Got: got, Obs: r.observe()})
 		if got != st.G {
-			break // the rest of the schedule is meaningless once the code has left it
+			// The code has left the schedule. If the process is parked at another schedule point it is run on, point
+			// by point, until it blocks in its read loop or ends (recorded as steps that ask for what happened), so that
+			// the consequences of the deviation become observable; the rest of the schedule is dropped.
+			if st.H > 0 && got != "timeout" && got != "not-parked" && got != "finished" && !strings.HasPrefix(got, "unexpected") {
+				a := r.hs[st.H]
+				for n := 0; n < 14; n++ {
+					var g2 string
+					if a.parkedAt == "attach.established" {
+						g2 = r.step(AttachStep{H: st.H, G: "read"})
+					} else {
+						r.current.Store(int32(a.idx))
+						if !r.releaseH(a) {
+							break
+						}
+						g2 = r.waitFor(a.idx, a.fin)
+						if g2 == "finished" {
+							r.markFin(a)
+						}
+					}
+					lines = append(lines, AttachLine{Ev: "step", Max: sc.Max, Hs: []AttachHandler{}, I: len(lines), H: st.H, G: g2, Got: g2, Obs: r.observe()})
+					if g2 == "read" || g2 == "finished" || g2 == "timeout" {
+						break
+					}
+				}
+			}
+			break
 		}
 	}
 	// wind down: everything runs freely, all clients drop, the server closes
